@@ -32,18 +32,55 @@ PINNED_ENV = {
 }
 
 
+BLOB_LEN = 16384
+
+
 def ensure_pinned_env(argv=None):
-    """Re-exec once so hash seed and BLAS thread pools are pinned *before* numpy is imported."""
+    """Re-exec once into a canonical process image.
+
+    Hash seed and BLAS thread pools are pinned before numpy is imported, and - so that the heap at
+    the point where the fork servers are created does not depend on how the check was invoked -
+    the command line and every VERIF_* variable travel in ONE fixed-length environment string that
+    is only unpacked (``restore_invocation``) after the fork servers exist.  Only VERIF_SRC and the
+    hash seed are needed earlier and stay separate.
+    """
     if os.environ.get('VERIF_PINNED') == '1':
         return
-    env = dict(os.environ)
+    argv = list(argv or sys.argv)
+    blob = json.dumps({'argv': argv[1:],
+                       'env': {k: v for k, v in os.environ.items() if k.startswith('VERIF_')}})
+    if len(blob) > BLOB_LEN:
+        raise SystemExit('command line too long for the canonical re-exec')
+    env = {'PATH': os.environ.get('PATH', '/usr/bin:/bin'), 'HOME': os.environ.get('HOME', '/root'),
+           'VERIF_PINNED': '1', 'VERIF_BLOB': blob.ljust(BLOB_LEN)}
     for k, v in PINNED_ENV.items():
-        if k == 'PYTHONHASHSEED' and 'VERIF_HASHSEED' in env:
-            v = env['VERIF_HASHSEED']
+        if k == 'PYTHONHASHSEED' and 'VERIF_HASHSEED' in os.environ:
+            v = os.environ['VERIF_HASHSEED']
         env[k] = v
-    env['VERIF_PINNED'] = '1'
-    argv = argv or sys.argv
-    os.execve(sys.executable, [sys.executable, '-B'] + argv, env)
+    if os.environ.get('VERIF_SRC'):
+        env['VERIF_SRC'] = os.environ['VERIF_SRC']
+    try:
+        # no address-space randomisation in the new image: object addresses (hence id()-based
+        # hashing, set orders and allocator reuse) become a repeatable function of the execution
+        import ctypes
+        libc = ctypes.CDLL(None, use_errno=True)
+        cur = libc.personality(0xffffffff)
+        if cur != -1:
+            libc.personality(cur | 0x0040000)
+    except Exception:  # noqa: BLE001 - best effort; replay then degrades to 'this process tree'
+        pass
+    os.execve(sys.executable, [sys.executable, '-B', argv[0]], env)
+
+
+def restore_invocation():
+    """Unpack the real command line / VERIF_* variables (called after the fork servers exist)."""
+    blob = os.environ.pop('VERIF_BLOB', None)
+    if blob is None:
+        return
+    doc = json.loads(blob)
+    sys.argv[1:] = doc['argv']
+    for k, v in doc['env'].items():
+        os.environ[k] = v
 
 
 _LIB = None
@@ -290,3 +327,157 @@ def fork_call(fn, args=(), timeout=120.0, label='child'):
     if res[0] == 'err':
         raise ForkError('%s failed: %s\n%s' % (label, res[1], res[2]))
     return res[1]
+
+
+# --------------------------------------------------------------------------- zygote (fork server)
+
+class Zygote(object):
+    """A never-used copy of the interpreter that does nothing but fork children on request.
+
+    Every run and every reference evaluation is a fork of this one process, whose heap is
+    stationary (its loop allocates nothing that survives an iteration).  All children therefore
+    start from a byte-identical heap, which makes even allocator-dependent behaviour of the code
+    under test (address reuse after garbage collection, id()-keyed memos) a repeatable function of
+    the plan.  Slots: one request/response pipe pair per client (0 = coordinator, 1.. = workers).
+    """
+    NSLOTS = 66
+    NSERVERS = 4
+
+    def __init__(self):
+        self.req = [os.pipe() for _ in range(self.NSLOTS)]
+        self.resp = [os.pipe() for _ in range(self.NSLOTS)]
+        self.trig = [os.pipe() for _ in range(self.NSERVERS)]
+        self.pids = [0] * self.NSERVERS
+        sys.stdout.flush()
+        sys.stderr.flush()
+        # identical fork servers: nothing but the loop counter changes between these forks
+        for k in range(self.NSERVERS):
+            pid = os.fork()
+            if pid == 0:
+                try:
+                    self._serve(k)
+                finally:
+                    os._exit(0)
+            self.pids[k] = pid
+
+    def _serve(self, k):
+        signal.signal(signal.SIGCHLD, signal.SIG_IGN)      # children are reaped by the kernel
+        signal.signal(signal.SIGINT, signal.SIG_IGN)
+        trig = self.trig[k][0]
+        for j in range(self.NSERVERS):
+            os.close(self.trig[j][1])
+        while True:
+            b = os.read(trig, 1)
+            if not b:
+                return
+            if os.fork() == 0:
+                self._child(b[0])
+
+    def _child(self, slot):
+        code = 0
+        try:
+            signal.signal(signal.SIGCHLD, signal.SIG_DFL)
+            signal.signal(signal.SIGINT, signal.SIG_DFL)
+            rfd = self.req[slot][0]
+            wfd = self.resp[slot][1]
+            (ln,) = struct.unpack('<Q', _read_exact(rfd, 8))
+            timeout, fn, args = pickle.loads(_read_exact(rfd, ln))
+            signal.alarm(max(1, int(timeout)))
+            try:
+                res = ('ok', fn(*args))
+            except BaseException as e:  # noqa: BLE001
+                res = ('err', '%s: %s' % (type(e).__name__, e), traceback.format_exc())
+            try:
+                data = pickle.dumps(res, protocol=pickle.HIGHEST_PROTOCOL)
+            except BaseException as e:  # noqa: BLE001
+                data = pickle.dumps(('err', 'unpicklable result: %r' % (e,), traceback.format_exc()))
+            signal.alarm(0)
+            _write_all(wfd, struct.pack('<Q', len(data)) + data)
+        except BaseException:  # noqa: BLE001
+            code = 3
+        finally:
+            os._exit(code)
+
+    def call(self, slot, fn, args, timeout, label):
+        payload = pickle.dumps((timeout, fn, args), protocol=pickle.HIGHEST_PROTOCOL)
+        os.write(self.trig[slot % self.NSERVERS][1], bytes([slot]))
+        _write_all(self.req[slot][1], struct.pack('<Q', len(payload)) + payload)
+        rfd = self.resp[slot][0]
+        deadline = time.monotonic() + timeout + 10.0
+        head = _read_exact(rfd, 8, deadline)
+        if head is None:
+            raise ForkTimeout('%s timed out after %.0fs (or its process died)' % (label, timeout))
+        (ln,) = struct.unpack('<Q', head)
+        data = _read_exact(rfd, ln, deadline)
+        if data is None:
+            raise ForkTimeout('%s: truncated reply' % label)
+        res = pickle.loads(data)
+        if res[0] == 'err':
+            raise ForkError('%s failed: %s\n%s' % (label, res[1], res[2]))
+        return res[1]
+
+    def shutdown(self):
+        for pid in self.pids:
+            try:
+                os.kill(pid, signal.SIGKILL)
+                os.waitpid(pid, 0)
+            except (ProcessLookupError, ChildProcessError):
+                pass
+
+
+def _read_exact(fd, n, deadline=None):
+    chunks, got = [], 0
+    while got < n:
+        if deadline is not None:
+            left = deadline - time.monotonic()
+            if left <= 0:
+                return None
+            ready, _, _ = select.select([fd], [], [], min(left, 2.0))
+            if not ready:
+                continue
+        b = os.read(fd, min(n - got, 1 << 20))
+        if not b:
+            if deadline is None:
+                raise EOFError('pipe closed')
+            return None
+        chunks.append(b)
+        got += len(b)
+    return b''.join(chunks)
+
+
+def _write_all(fd, data):
+    view = memoryview(data)
+    while view:
+        n = os.write(fd, view[:1 << 16])
+        view = view[n:]
+
+
+ZYGOTE = None
+SLOT = 0
+
+
+def start_zygote():
+    global ZYGOTE
+    if ZYGOTE is None and os.environ.get('VERIF_NO_ZYGOTE') != '1':
+        ZYGOTE = Zygote()
+        import atexit
+        atexit.register(_stop_zygote, os.getpid())
+    return ZYGOTE
+
+
+def _stop_zygote(owner):
+    if ZYGOTE is not None and os.getpid() == owner:
+        ZYGOTE.shutdown()
+
+
+def set_slot(slot):
+    global SLOT
+    SLOT = slot
+
+
+def isolated_call(fn, args=(), timeout=120.0, label='child'):
+    """Run fn(*args) in a process that starts from pristine library state (zygote fork if a
+    zygote exists, else a fork of the caller)."""
+    if ZYGOTE is not None:
+        return ZYGOTE.call(SLOT, fn, args, timeout, label)
+    return fork_call(fn, args, timeout, label)
